@@ -245,7 +245,7 @@ func c07Concurrent(c *Ctx, e *c07Env) {
 			if !pass.stmt {
 				vrt.AllStatements = nil
 			}
-			stats := explore.Run(explore.Config{MaxCost: pass.bound, Deadline: c.Deadline, Shard: c.Shard, Shards: c.Shards, ShardDepth: 2, TolerateDivergence: true, MaxDivergences: 16}, func(x *explore.Exec, own bool) {
+			stats := explore.Run(explore.Config{Stop: schedStuck, MaxCost: pass.bound, Deadline: c.Deadline, Shard: c.Shard, Shards: c.Shards, ShardDepth: 2, TolerateDivergence: true, MaxDivergences: 16}, func(x *explore.Exec, own bool) {
 				out, v, err := body(x)
 				if !own {
 					return
